@@ -116,7 +116,14 @@ def _gen_dir(rng, files, sp, rel, name, cfg, depth, style):
         elif noise == "bak":
             files[f"{d}{rng.choice(SUB_NAMES)}.py.bak"] = "x = 1\n"
         else:
-            files[f"{d}not-ident/__init__.py"] = _body("py", f"sp{sp}/{d}not-ident/__init__.py")
+            # names no `import` statement can spell are still packages for importlib and pkgutil - with content
+            ni = rng.choice(["not-ident", "2fa", "my-plugins"])
+            files[f"{d}{ni}/__init__.py"] = _body("py", f"sp{sp}/{d}{ni}/__init__.py")
+            if rng.random() < 0.7:
+                files[f"{d}{ni}/a.py"] = _body("py", f"sp{sp}/{d}{ni}/a.py")
+            if rng.random() < 0.3 and depth < 3:
+                files[f"{d}{ni}/deep/__init__.py"] = _body("py", f"sp{sp}/{d}{ni}/deep/__init__.py")
+                files[f"{d}{ni}/deep/b.py"] = _body("py", f"sp{sp}/{d}{ni}/deep/b.py")
 
 
 def _gen_entry(rng, files, sp, rel, name, cfg, depth):
